@@ -324,13 +324,193 @@ theorem globalRef_noError (p : String) (env : Env) (s : Schema) (r : Rule) (n : 
     · simp only [Option.some.injEq] at h; subst h; rfl
     · simp at h
 
+theorem nodup_length_le : ∀ (l U : List String), l.Nodup → (∀ x ∈ l, x ∈ U) → l.length ≤ U.length
+  | [], _, _, _ => by simp
+  | a :: t, U, hnd, hsub => by
+    have ha : a ∈ U := hsub a (by simp)
+    have hnd' := List.nodup_cons.mp hnd
+    have ht : ∀ x ∈ t, x ∈ U.erase a := by
+      intro x hx
+      have hxa : x ≠ a := fun h => hnd'.1 (h ▸ hx)
+      exact (List.mem_erase_of_ne hxa).mpr (hsub x (by simp [hx]))
+    have := nodup_length_le t (U.erase a) hnd'.2 ht
+    rw [List.length_erase_of_mem ha] at this
+    have hpos : 0 < U.length := List.length_pos_of_mem ha
+    simp only [List.length_cons]; omega
+
+/-! ### the marked search `VARfind`: reachability through supertypes -/
+
+theorem mem_addNew (acc : List String) : ∀ (xs : List String) (y : String), y ∈ addNew acc xs ↔ y ∈ acc ∨ y ∈ xs := by
+  intro xs
+  induction xs generalizing acc with
+  | nil => intro y; simp [addNew]
+  | cons x xs ih =>
+    intro y
+    simp only [addNew]
+    split
+    · next hx =>
+      rw [ih]
+      constructor
+      · rintro (h | h); exact Or.inl h; exact Or.inr (List.mem_cons_of_mem _ h)
+      · rintro (h | h)
+        · exact Or.inl h
+        · rcases List.mem_cons.mp h with rfl | h
+          · exact Or.inl hx
+          · exact Or.inr h
+    · rw [ih]
+      constructor
+      · rintro (h | h)
+        · rcases List.mem_append.mp h with h | h
+          · exact Or.inl h
+          · exact Or.inr (by rw [List.mem_singleton.mp h]; exact List.mem_cons_self ..)
+        · exact Or.inr (List.mem_cons_of_mem _ h)
+      · rintro (h | h)
+        · exact Or.inl (List.mem_append_left _ h)
+        · rcases List.mem_cons.mp h with rfl | h
+          · exact Or.inl (List.mem_append_right _ (List.mem_singleton.mpr rfl))
+          · exact Or.inr h
+
+theorem nodup_addNew : ∀ (xs acc : List String), acc.Nodup → (addNew acc xs).Nodup
+  | [], acc, h => by simpa [addNew] using h
+  | x :: xs, acc, h => by
+    simp only [addNew]
+    split
+    · exact nodup_addNew xs acc h
+    · next hx =>
+      apply nodup_addNew xs
+      rw [List.nodup_append]
+      refine ⟨h, by simp, ?_⟩
+      intro a ha b hb
+      simp only [List.mem_singleton] at hb
+      subst hb; intro hab; subst hab; exact hx ha
+
+theorem length_addNew_ge : ∀ (xs acc : List String), acc.length ≤ (addNew acc xs).length
+  | [], acc => by simp [addNew]
+  | x :: xs, acc => by
+    simp only [addNew]
+    split
+    · exact length_addNew_ge xs acc
+    · have := length_addNew_ge xs (acc ++ [x])
+      simp only [List.length_append, List.length_singleton] at this
+      omega
+
+/-- nothing was added ⇒ everything offered was already there -/
+theorem addNew_same_length : ∀ (xs acc : List String), (addNew acc xs).length = acc.length → ∀ y ∈ xs, y ∈ acc
+  | [], _, _, y, hy => by simp at hy
+  | x :: xs, acc, h, y, hy => by
+    simp only [addNew] at h
+    split at h
+    · next hx =>
+      rcases List.mem_cons.mp hy with rfl | hy
+      · exact hx
+      · exact addNew_same_length xs acc h y hy
+    · have := length_addNew_ge xs (acc ++ [x])
+      simp only [List.length_append, List.length_singleton] at this
+      omega
+
+/-- `acc` is closed under the edges of `g` -/
+def ClosedUnder (g : String → List String) (acc : List String) : Prop := ∀ n ∈ acc, ∀ m ∈ g n, m ∈ acc
+
+theorem closed_reach {g : String → List String} {acc : List String} (hc : ClosedUnder g acc) {a x : String}
+    (ha : a ∈ acc) (hr : Reach g a x) : x ∈ acc := by
+  induction hr with
+  | step h => exact hc _ ha _ h
+  | trans h _ ih => exact ih (hc _ ha _ h)
+
+theorem upClosure_sound (g : String → List String) : ∀ (k : Nat) (acc : List String) (x : String),
+    x ∈ upClosure g k acc → ∃ a ∈ acc, ReachRefl g a x
+  | 0, acc, x, h => ⟨x, by simpa [upClosure] using h, Or.inl rfl⟩
+  | k + 1, acc, x, h => by
+    simp only [upClosure] at h
+    split at h
+    · exact ⟨x, h, Or.inl rfl⟩
+    · obtain ⟨a, ha, hr⟩ := upClosure_sound g k _ x h
+      rcases (mem_addNew acc _ a).mp ha with ha | ha
+      · exact ⟨a, ha, hr⟩
+      · obtain ⟨n, hn, han⟩ := List.mem_flatMap.mp ha
+        refine ⟨n, hn, Or.inr ?_⟩
+        rcases hr with rfl | hr
+        · exact .step han
+        · exact .trans han hr
+
+theorem upClosure_mono (g : String → List String) : ∀ (k : Nat) (acc : List String) (x : String), x ∈ acc → x ∈ upClosure g k acc
+  | 0, acc, x, h => by simpa [upClosure] using h
+  | k + 1, acc, x, h => by
+    simp only [upClosure]
+    split
+    · exact h
+    · exact upClosure_mono g k _ x ((mem_addNew acc _ x).mpr (Or.inl h))
+
+/-- with enough rounds the result is closed: every round that does not stop adds a new node, and all nodes come from the
+    finite universe `U` -/
+theorem upClosure_closed (g : String → List String) (U : List String) (hU : ∀ n m, m ∈ g n → m ∈ U) :
+    ∀ (k : Nat) (acc : List String), acc.Nodup → (∀ x ∈ acc, x ∈ U) → U.length - acc.length < k →
+      ClosedUnder g (upClosure g k acc)
+  | 0, acc, _, _, h => by omega
+  | k + 1, acc, hnd, hsub, h => by
+    simp only [upClosure]
+    split
+    · next hlen =>
+      intro n hn m hm
+      exact addNew_same_length _ acc hlen m (List.mem_flatMap.mpr ⟨n, hn, hm⟩)
+    · next hlen =>
+      have hnd' := nodup_addNew (acc.flatMap g) acc hnd
+      have hsub' : ∀ x ∈ addNew acc (acc.flatMap g), x ∈ U := by
+        intro x hx
+        rcases (mem_addNew acc _ x).mp hx with hx | hx
+        · exact hsub x hx
+        · obtain ⟨n, _, hm⟩ := List.mem_flatMap.mp hx; exact hU n x hm
+      have hle := nodup_length_le _ U hnd' hsub'
+      have hge := length_addNew_ge (acc.flatMap g) acc
+      apply upClosure_closed g U hU k _ hnd' hsub'
+      omega
+
+theorem superGraph_entities (s : Schema) (n m : String) (h : m ∈ superGraph s n) : m ∈ s.entities.map (·.name) := by
+  simp only [superGraph] at h
+  cases hf : findEntity s n with
+  | none => rw [hf] at h; simp at h
+  | some e =>
+    rw [hf] at h
+    simp only [supersOf, List.mem_filter, isEntity] at h
+    cases hm : findEntity s m with
+    | none => rw [hm] at h; simp at h
+    | some em =>
+      have h1 := List.mem_of_find?_eq_some hm
+      have h2 := List.find?_some hm
+      simp only [decide_eq_true_eq] at h2
+      exact List.mem_map.mpr ⟨em, h1, h2⟩
+
+/-- **`VARfind` finds the attribute ⇔ the entity itself or an entity reachable from it through `SUBTYPE OF` declares it** — also
+    when the supertype graph is cyclic; `fuel` more than the number of entities (the passes give declarations + 1) -/
+theorem varFind_iff (s : Schema) (an : String) (fuel : Nat) (en : String) (hf : s.entities.length < fuel) :
+    varFind s an fuel en = true ↔ ∃ x, ReachRefl (superGraph s) en x ∧ ownsAttr s an x = true := by
+  simp only [varFind, List.any_eq_true]
+  constructor
+  · rintro ⟨x, hx, ho⟩
+    obtain ⟨a, ha, hr⟩ := upClosure_sound _ _ _ x hx
+    simp only [List.mem_singleton] at ha; subst ha
+    exact ⟨x, hr, ho⟩
+  · rintro ⟨x, hr, ho⟩
+    refine ⟨x, ?_, ho⟩
+    have hmono := upClosure_mono (superGraph s) fuel [en] en (by simp)
+    rcases hr with rfl | hr
+    · exact hmono
+    · -- closedness over the universe `en :: entity names`
+      have hc := upClosure_closed (superGraph s) (en :: s.entities.map (·.name))
+        (fun n m hm => List.mem_cons_of_mem _ (superGraph_entities s n m hm)) fuel [en] (by simp) (by simp)
+        (by simp only [List.length_cons, List.length_map, List.length_singleton, List.length_nil]; omega)
+      exact closed_reach hc hmono hr
+
+/-- `attr` is declared by `e` or by an entity reachable from it through `SUBTYPE OF` (the marked search of `VARfind`) -/
+def BareVisible (s : Schema) (fuel : Nat) (e : Entity) (an : String) : Prop := varFind s an fuel e.name = true
+
 /-- what one item of an expression of entity `e` must satisfy: a call names a function; `SELF.a` names a visible attribute; a
     bare identifier names a visible attribute or — outside domain rules, which must refer to SELF or an attribute — something
     the schema scope knows; no group reference on a non-entity -/
 def RuleItemWF (env : Env) (s : Schema) (fuel : Nat) (e : Entity) (r : Rule) : RuleItem → Prop
   | .call fn _ => CallWF s fn
   | .selfAttr an => AttrVisible s fuel e an
-  | .bareAttr an => AttrVisible s fuel e an ∨ (r.isWhere = false ∧ GlobalVisible env s an)
+  | .bareAttr an => BareVisible s fuel e an ∨ (r.isWhere = false ∧ GlobalVisible env s an)
   | .badGroup _ => False
   | .smallReal _ => True
 
@@ -344,10 +524,7 @@ theorem ruleItem_noError_iff (path : String) (env : Env) (s : Schema) (fuel : Na
     | none => errsimp
     | some b => cases b <;> errsimp
   | bareAttr an =>
-    have other : namedAttr s an fuel e.name ≠ some true →
-        (hasError (bareOutside path env s r an) = false ↔
-         (r.isWhere = false ∧ GlobalVisible env s an)) := by
-      intro _
+    have other : hasError (bareOutside path env s r an) = false ↔ (r.isWhere = false ∧ GlobalVisible env s an) := by
       rw [← globalRef_isSome_iff path env s r an]
       simp only [bareOutside]
       cases hg : globalRef path env s r an with
@@ -357,13 +534,10 @@ theorem ruleItem_noError_iff (path : String) (env : Env) (s : Schema) (fuel : Na
       | none =>
         simp only [Option.isSome_none, Bool.false_eq_true, and_false, iff_false, Bool.not_eq_false]
         errsimp
-    simp only [ruleItemDiags, RuleItemWF, AttrVisible]
-    cases h : namedAttr s an fuel e.name with
-    | none => simpa using other (by simp [h])
-    | some b =>
-      cases b with
-      | true => simp [hasError_nil]
-      | false => simpa using other (by simp [h])
+    simp only [ruleItemDiags, RuleItemWF, BareVisible]
+    cases h : varFind s an fuel e.name with
+    | true => simp [hasError_nil]
+    | false => simpa using other
   | badGroup an => simp only [ruleItemDiags, RuleItemWF, iff_false]; errsimp
   | smallReal t => simp [ruleItemDiags, RuleItemWF, hasError]
 
@@ -415,20 +589,6 @@ theorem inverse_noError_iff (path : String) (s : Schema) (a : Attr) (hasAttr : S
           simp [ht', hasError_nil]
 
 /-! ### the cycle search never runs out of fuel; cycle ⇔ report -/
-
-theorem nodup_length_le : ∀ (l U : List String), l.Nodup → (∀ x ∈ l, x ∈ U) → l.length ≤ U.length
-  | [], _, _, _ => by simp
-  | a :: t, U, hnd, hsub => by
-    have ha : a ∈ U := hsub a (by simp)
-    have hnd' := List.nodup_cons.mp hnd
-    have ht : ∀ x ∈ t, x ∈ U.erase a := by
-      intro x hx
-      have hxa : x ≠ a := fun h => hnd'.1 (h ▸ hx)
-      exact (List.mem_erase_of_ne hxa).mpr (hsub x (by simp [hx]))
-    have := nodup_length_le t (U.erase a) hnd'.2 ht
-    rw [List.length_erase_of_mem ha] at this
-    have hpos : 0 < U.length := List.length_pos_of_mem ha
-    simp only [List.length_cons]; omega
 
 /-- what a call of the search on visited set `vis` guarantees when every node stays inside the universe `U` -/
 def FuelOK (e : String) (g : String → List String) (U : List String) (ret : Bool)
